@@ -56,15 +56,23 @@ def handleJunit : List String → Option String
       pure s!"{"|".intercalate (r.map showSuite)}@{tot} ## sum:{st.finishedCount}:{st.passed}:{st.flaky}:{st.leaky}:{st.failed}:{st.execFailed}:{st.timedOut} ## st:{st.finishedCount}:{st.passed}:{st.flaky}:{st.leaky}:{st.failed}:{st.execFailed}:{st.timedOut}:{st.setupScriptsFinishedCount}:{st.failedSetupScriptCount}"
   | _ => none
 
-/-- `xmltext <hex s> <hex strip_str(s)>` → `<system-out>;<system-err>`, both the hex of what `xml_string` makes of `s`; the third-party ANSI stripper is the table
-    `s ↦ strip_str(s)` handed in by the harness (the identity elsewhere: the text left after the first pass holds no ESC and
-    no C1 control) -/
+def parseOutKind : String → Option NextestModel.XmlText.OutKind
+  | "split" => some .split | "outonly" => some .splitStdoutOnly | "erronly" => some .splitStderrOnly | "neither" => some .splitNeither
+  | "combined" => some .combined | "starterr" => some .startError | _ => none
+
+/-- `xmltext <kind> <hex stdout> <hex strip_str(stdout)> <hex stderr> <hex strip_str(stderr)>` → `<system-out>;<system-err>`: which
+    text `set_execute_status_props` stores where, and what `xml_string` makes of it; the third-party ANSI stripper is the table
+    handed in by the harness (the identity elsewhere: the text left after the first pass holds no ESC and no C1 control) -/
 def handleXmlText : List String → Option String
-  | [s, a] => do
-    let s ← unhexChars s
-    let a ← unhexChars a
-    let h := hexChars (NextestModel.XmlText.xmlString (fun l => if l == s then a else l) s)
-    pure s!"{h};{h}"
+  | [k, o, oa, e, ea] => do
+    let k ← parseOutKind k
+    let o ← unhexChars o
+    let oa ← unhexChars oa
+    let e ← unhexChars e
+    let ea ← unhexChars ea
+    let ansi : List Char → List Char := fun l => if l == o then oa else if l == e then ea else l
+    let (a, b) := NextestModel.XmlText.storedStreams k o e
+    pure s!"{hexChars (NextestModel.XmlText.xmlString ansi a)};{hexChars (NextestModel.XmlText.xmlString ansi b)}"
   | _ => none
 
 end Driver
